@@ -1,7 +1,7 @@
 """C09 — every written file is a well-formed BBI file for an independent decoder."""
 import os
 from vlib import CaseT, run_model
-from wbprop import WigBedProp
+from wbprop import WigBedProp, byte_level_check
 import bbgen
 import bbi_codec
 
@@ -83,6 +83,7 @@ class C09(WigBedProp):
         return None
 
     def extra_checks(self, rep, tier, rng, workdir):
+        byte_level_check(self, rep, workdir)
         """second judge: the Lean certificate on every uncompressed file; the judges must agree"""
         outdir = os.path.join(workdir, "main", "out")
         stage = []
